@@ -98,6 +98,20 @@ def run(pid="C01"):
             d = "raised %r" % (e,)
         if d:
             r.violation("roundtrip:dictionary-word", "a tree built from the library's dictionary words %r does not survive the codec: %s" % (chunk, d), {"words": chunk})
+    # long lists (16-bit list sizes up to the format's maximum): round trip only - too long for TLC to enumerate their encodings
+    for n, what in ([(32767, "children"), (32768, "children"), (16384, "attributes")] + ([(65534, "children"), (32767, "attributes"), (40000, "children")] if thorough else [])):
+        r.case(("long-list", n, what))
+        if what == "children":
+            node = ProtocolTreeNode("list", {"type": "get"}, [ProtocolTreeNode("item", {"i": str(i % 97)}) for i in range(n)])
+        else:
+            node = ProtocolTreeNode("iq", dict(("k%d" % i, str(i % 89)) for i in range(n)))
+        try:
+            back = ReadDecoder(td).getProtocolTreeNode(bytearray(WriteEncoder(td).protocolTreeNodeToBytes(node)))
+            d = wire.strict_equal(node, back)
+        except Exception as e:
+            d = "raised %r" % (e,)
+        if d:
+            r.violation("roundtrip:long-list:%s" % what, "a node with %d %s does not survive the codec: %s" % (n, what, str(d)[:300]), {"n": n, "what": what})
     if nbad_design:
         raise core.MachineryError("%d cases: the reference decoder does not return the tree for an enumerated encoding (specification error)" % nbad_design)
     r.notes["reference_encodings_checked_by_tlc"] = sum(o["n"] for o in outs)
